@@ -175,8 +175,36 @@ def _mutual_lists():
     return a
 
 
+CLOCK = [None]      # the step clock of the attempt that is running (input objects that never end tick it themselves)
+
+
+class Endless:
+    """An iterator without an end (an 'iterators' input): every item it hands out is a virtual step, so walking through it
+    is stopped by the watchdog like a loop in the library's own code."""
+
+    def __iter__(self):
+        return self
+
+    def __next__(self):
+        clk = CLOCK[0]
+        if clk is not None:
+            clk.steps += 1
+            if clk.steps > clk.budget:
+                clk.last = ("<input>", "Endless.__next__", 0)
+                raise StepBudgetExceeded(f"{clk.steps} steps walking through an endless iterator")
+        return 0
+
+    def __repr__(self):
+        return "<Endless>"
+
+
 def hostile_pool():
-    return _hostile_base() + [_self_list(), _mutual_lists(), ReprBomb(), [ReprBomb()]] + _hostile_wrapped()
+    return _hostile_base() + [_self_list(), _mutual_lists(), ReprBomb(), [ReprBomb()]] + _hostile_wrapped() + _hostile_more()
+
+
+def _hostile_more():
+    # (appended: the indices of the older entries are part of recorded plans)
+    return [Endless(), [Endless()]]
 
 
 def _hostile_wrapped():
@@ -194,6 +222,7 @@ def _hostile_base():
 
 
 N_HOSTILE = len(hostile_pool())
+N_WRAPPED_END = N_HOSTILE - len(_hostile_more())
 
 
 # ----------------------------------------------------------------------------- generation
@@ -355,7 +384,7 @@ def generate(rng, tier):
             fields.append({"name": "dsc", "type": ["disc"]})
             inp["dsc"] = rng.choice([{"kind": "a"}, {"kind": {"$unhashable": 1}}, {"kind": {"$ho": 3}}, {"kind": "zz"}, 5, {"kind": {"$hb": 1}}, {"kind": {"$hb": 1}}, {"$fd": {"kind": "a"}}, {"$fd": {"kind": "b"}},
                                      {"$fl": [["kind", "a"]]}, {"$fl": [["kind", "a"]]}, {"$fl": [["kind", "b"]]}, {"$conho": ["olen", 7]},
-                                     {"$con": ["olen", N_HOSTILE - rng.choice([1, 2, 3, 4])]}])
+                                     {"$con": ["olen", N_WRAPPED_END - rng.choice([1, 2, 3, 4])]}])
         plan["fields"] = fields
         plan["input"] = inp
         if api in ("func_gen", "func_agen") and rng.random() < 0.5:
@@ -721,6 +750,7 @@ def _attempt(plan, env, hostile, budget):
         value = faults.FaultyDict(value)
     del FLAGS[:]
     clock = StepClock(budget)
+    CLOCK[0] = clock
     try:
         with clock:
             got = call(value)
